@@ -25,6 +25,59 @@ const OP_COST: Cost = 1;
 // exceeded
 const STACK_SIZE_LIMIT: usize = 20000000;
 
+// Observation hook for external verification harnesses. Compiled only with
+// `--cfg clvmr_verif`; without it nothing here exists.
+#[cfg(clvmr_verif)]
+pub mod verif_hook {
+    use std::cell::RefCell;
+
+    #[derive(Debug, Clone)]
+    pub enum Event {
+        // a softfork guard was entered (state before evaluating the guarded program)
+        GuardEnter {
+            declared: u64,
+            cost: u64,
+            exempt: bool,
+            depth: usize,
+            atoms: usize,
+            pairs: usize,
+            heap: usize,
+        },
+        // a softfork guard completed (state after restoring the allocator)
+        GuardExit {
+            cost: u64,
+            nil: bool,
+            atoms: usize,
+            pairs: usize,
+            heap: usize,
+        },
+        // one operation of the main loop completed
+        Step {
+            op: u8,
+            cost: u64,
+            atoms: usize,
+            pairs: usize,
+            heap: usize,
+        },
+    }
+
+    thread_local! {
+        pub static OBSERVER: RefCell<Option<Box<dyn FnMut(&Event)>>> = const { RefCell::new(None) };
+    }
+
+    pub fn set_observer(f: Option<Box<dyn FnMut(&Event)>>) {
+        OBSERVER.with(|o| *o.borrow_mut() = f);
+    }
+
+    pub(super) fn emit(e: Event) {
+        OBSERVER.with(|o| {
+            if let Some(f) = o.borrow_mut().as_mut() {
+                f(&e);
+            }
+        });
+    }
+}
+
 #[cfg(feature = "pre-eval")]
 pub type PreEval = Box<dyn Fn(&mut Allocator, NodePtr, NodePtr) -> Result<Option<Box<PostEval>>>>;
 
@@ -454,6 +507,17 @@ impl<'a, D: Dialect> RunProgramContext<'a, D> {
                 start_cost: current_cost,
             });
 
+            #[cfg(clvmr_verif)]
+            verif_hook::emit(verif_hook::Event::GuardEnter {
+                declared: expected_cost.wrapping_sub(current_cost),
+                cost: current_cost,
+                exempt: matches!(ext, OperatorSet::PreHardFork),
+                depth: self.softfork_stack.len(),
+                atoms: self.allocator.atom_count(),
+                pairs: self.allocator.pair_count(),
+                heap: self.allocator.heap_size(),
+            });
+
             // once the softfork guard exits, we need to ensure the cost that was
             // specified match the true cost. We also free heap allocations
             self.op_stack.push(Operation::ExitGuard);
@@ -514,6 +578,15 @@ impl<'a, D: Dialect> RunProgramContext<'a, D> {
             .expect("internal error, softfork program did not push value onto stack");
 
         self.push(self.allocator.nil())?;
+
+        #[cfg(clvmr_verif)]
+        verif_hook::emit(verif_hook::Event::GuardExit {
+            cost: current_cost,
+            nil: self.val_stack.last().map(|n| *n == NodePtr::NIL) == Some(true),
+            atoms: self.allocator.atom_count(),
+            pairs: self.allocator.pair_count(),
+            heap: self.allocator.heap_size(),
+        });
 
         Ok(0)
     }
@@ -588,6 +661,14 @@ impl<'a, D: Dialect> RunProgramContext<'a, D> {
                     0
                 }
             };
+            #[cfg(clvmr_verif)]
+            verif_hook::emit(verif_hook::Event::Step {
+                op: 0,
+                cost,
+                atoms: self.allocator.atom_count(),
+                pairs: self.allocator.pair_count(),
+                heap: self.allocator.heap_size(),
+            });
         }
         self.allocator.clear_validation_caches();
         Ok(Reduction(cost, self.pop()?))
